@@ -96,3 +96,17 @@ Fixpoint chunks (l : list item) : list bytes :=
   | Mine _ _ ch :: t => ch :: chunks t
   end.
 Definition packetise (pid : N) (l : list item) : bytes := concat (ser_items pid true l).
+
+(* ---- hypotheses of the reader theorem (C06 L4) ---- *)
+(* the prefix of k bytes of the payload ends exactly at the end of one of the preceding sections: there a new
+   payload unit would start (ISO 13818-1 2.4.4.2), so such a cut is not a packetisation of one unit *)
+Definition inner_end (c : carrier) (k : N) : Prop :=
+  exists i, (1 <= i <= length (pre c))%nat /\ k = 1 + pf c + len (ser_pre (firstn i (pre c))).
+Definition wf_item (pid : N) (it : item) : Prop :=
+  match it with
+  | Other p => len p = 188 /\ pkt_pid p <> Ok pid
+  | Mine m af ch => wf_pkt_parts pid m af ch
+  end.
+(* no packet boundary of the PMT PID falls on an inner section end *)
+Definition cuts_ok (c : carrier) (l : list item) : Prop :=
+  forall j, let k := len (concat (chunks (firstn j l))) in k < len (ser_unit c) -> ~ inner_end c k.
